@@ -140,6 +140,20 @@ def cases(chunk):
             yield {"size": rng.choice([1, 2, 2, 3, 3, 4]), "rand": rng.randrange(10 ** 12), "depth": d}
 
 
+# every void operator of tracklib.core.operators.Operator that takes feature names (and at most a number): driven
+# without a model of what each one computes -- see Runner.apply("anyop")
+ANY_UNARY = ["IDENTITY", "RECTIFIER", "INTEGRATOR", "SHIFT_RIGHT", "SHIFT_LEFT", "SHIFT_CIRCULAR_RIGHT",
+             "SHIFT_CIRCULAR_LEFT", "INVERTER", "INVERSER", "REVERSER", "DEBIASER", "SQUARE", "SQRT", "NORMALIZER",
+             "DIFFERENTIATOR", "BACKWARD_FINITE_DIFF", "FORWARD_FINITE_DIFF", "CENTERED_FINITE_DIFF",
+             "SECOND_ORDER_FINITE_DIFF", "DIODE", "SIGN", "LOG", "COS", "SIN", "TAN"]
+ANY_BINARY = ["ADDER", "SUBSTRACTER", "MULTIPLIER", "DIVIDER", "MODULO", "ABOVE", "BELOW", "QUAD_ADDER",
+              "POINTWISE_EQUALER", "DERIVATOR", "RENORMALIZER"]
+ANY_SHIFT = ["SHIFT", "SHIFT_CIRCULAR", "SHIFT_REV", "SHIFT_CIRCULAR_REV"]
+ANY_SCALAR = ["SCALAR_ADDER", "SCALAR_SUBSTRACTER", "SCALAR_MULTIPLIER", "SCALAR_DIVIDER", "SCALAR_MODULO",
+              "SCALAR_ABOVE", "SCALAR_BELOW", "SCALAR_REV_ABOVE", "SCALAR_REV_BELOW", "SCALAR_REV_SUBSTRACTER",
+              "SCALAR_REV_DIVIDER", "SCALAR_REV_MODULO", "THRESHOLDER"]
+
+
 def random_op(rng, model):
     """One operation drawn from the full set; operator/expression operands are
     existing names only."""
@@ -147,13 +161,24 @@ def random_op(rng, model):
     kinds = ["create_list", "create_scalar", "remove", "delete_item", "update_list", "update_scalar", "set_list",
              "set_scalar", "set_fn", "set_obs", "add_af", "read"]
     if have:
-        kinds += ["unary", "binary", "scalar", "expr", "eval", "expr", "eval", "unary", "binary", "coord"]
+        kinds += ["unary", "binary", "scalar", "expr", "eval", "expr", "eval", "unary", "binary", "coord",
+                  "anyop", "anyop", "anyop"]
     k = rng.choice(kinds)
     name = rng.choice(NAMES)
     if k in ("create_list", "create_scalar", "remove", "delete_item", "update_list", "update_scalar", "set_list",
              "set_scalar", "set_fn", "set_obs", "add_af", "read"):
         return (k, name)
     i1, i2, o = rng.choice(have), rng.choice(have), rng.choice(NAMES)
+    if k == "anyop":
+        fam = rng.choice(["u", "u", "b", "shift", "shift", "s"])
+        if fam == "u":
+            return ("anyop", rng.choice(ANY_UNARY), i1, None, o)
+        if fam == "b":
+            return ("anyop", rng.choice(ANY_BINARY), i1, i2, o)
+        if fam == "shift":
+            # amounts include 0, +-1, the number of observations and its multiples (whole turns)
+            return ("anyop", rng.choice(ANY_SHIFT), i1, ["turns", rng.choice([0, 1, -1, 2, "n", "-n", "2n", "n+1"])], o)
+        return ("anyop", rng.choice(ANY_SCALAR), i1, ["num", rng.choice([2.0, 0.5, -3.0, 1000.0])], o)
     if k == "unary":
         return ("unary", rng.choice(list(UNARY)), i1, o)
     if k == "binary":
@@ -414,6 +439,29 @@ class Runner:
                 self.flags.add("delete_then_recreate")
             model[o] = [SCALAR[opn](x, kk) for x in model[i1]]
             status = "ok"
+        elif k == "anyop":
+            # any void operator, without a model of what it computes: the list the call RETURNS is what it says it
+            # wrote, so that is what reading the output name must give afterwards; everything else must stay put
+            _, opn, i1, arg, o = op
+            if i1 not in model or (isinstance(arg, str) and arg not in model):
+                return "skip", None, None
+            if isinstance(arg, list):
+                a = arg[1]
+                if arg[0] == "turns":
+                    a = {"n": n, "-n": -n, "2n": 2 * n, "n+1": n + 1}.get(a, a)
+                    if a == 0 or (isinstance(a, int) and a % n == 0):
+                        self.flags.add("shift_by_whole_turns")
+                call = lambda: tr.operate(getattr(Operator, opn), i1, a, o)
+            elif arg is None:
+                call = lambda: tr.operate(getattr(Operator, opn), i1, o)
+            else:
+                call = lambda: tr.operate(getattr(Operator, opn), i1, arg, o)
+            if o in (i1, arg):
+                self.flags.add("inplace_operator")
+            if o not in model and o in self.deleted_names:
+                self.flags.add("delete_then_recreate")
+            self.flags.add("any_void_operator")
+            return "from_return", call, o
         elif k in ("expr", "eval"):
             e = op[1]
             import re
@@ -493,7 +541,43 @@ class Runner:
             return None
         self.applied.append(tuple(op))
         r = M.call(call)
-        if status == "reject":
+        if status == "from_return":
+            out = expect_return
+            if M.is_raised(r):
+                if r.type not in ("ZeroDivisionError", "ValueError", "OverflowError"):
+                    return {"what": "operator application raised", "op": list(op), "raised": r}
+                # arithmetic domain error of the operator on these values (1/0, log 0, 0/0 ...): whatever happened to
+                # the output name, the table must be aligned and every OTHER name must read as before
+                self.ctx.count("operator_domain_error")
+                listed = M.call(self.tr.getListAnalyticalFeatures)
+                if M.is_raised(listed):
+                    return {"what": "getListAnalyticalFeatures raised", "raised": listed}
+                if out in listed:
+                    got = M.call(self.tr.getAnalyticalFeature, out)
+                    if M.is_raised(got):
+                        return {"what": "output feature unreadable after an operator failed", "op": list(op), "raised": got}
+                    self.model[out] = [float(v) for v in got]
+                elif out in self.model:
+                    return {"what": "an operator that failed removed its (existing) output feature", "op": list(op)}
+            else:
+                vals = None
+                if isinstance(r, (list, tuple)) and len(r) == self.n:
+                    try:
+                        vals = [float(v) for v in r]
+                    except (TypeError, ValueError):
+                        vals = None
+                if vals is not None:
+                    self.model[out] = vals          # what the call says it wrote
+                    self.ctx.monitor("anyop.returned_list_is_what_is_read")
+                else:
+                    # some void operators return nothing: then only alignment and "nothing else moved" are judged
+                    self.ctx.count("void_operator_returned_no_list")
+                    got = M.call(self.tr.getAnalyticalFeature, out)
+                    if M.is_raised(got):
+                        return {"what": "output feature unreadable after an operator application", "op": list(op),
+                                "raised": got}
+                    self.model[out] = [float(v) for v in got]
+        elif status == "reject":
             self.flags.add("rejection")
             if not M.is_raised(r) or r.type != "AnalyticalFeatureError":
                 return {"what": "documented rejection (AnalyticalFeatureError on a missing name) did not happen",
@@ -501,7 +585,7 @@ class Runner:
         else:
             if M.is_raised(r):
                 return {"what": "operation raised", "op": list(op), "raised": r}
-            if expect_return is not None:
+            if expect_return is not None and status != "from_return":
                 try:
                     ok = M.seq_eq(list(r), expect_return)
                 except TypeError:
